@@ -213,6 +213,7 @@ func TestC29(t *testing.T) {
 		}
 		idleKill := rapid.Bool().Draw(t, "killWhileIdleFirst") // "before send": the connection is dead when the request is issued
 		undetected := rapid.Bool().Draw(t, "deathNotYetDetected")
+		outage := rapid.Bool().Draw(t, "outageBeforeRequests")
 		ending := rapid.SampledFrom([]string{"reconnect", "reconnect", "close"}).Draw(t, "ending")
 		closeAfter := time.Duration(rapid.SampledFrom([]int{0, 1, 100, 3000, 20000}).Draw(t, "closeAfterMs")) * time.Millisecond
 		var hist []string
@@ -290,6 +291,15 @@ func TestC29(t *testing.T) {
 				t.Fatalf("client did not dial")
 			}
 			if idleKill {
+				if ending == "close" && outage {
+					// the outage lasts: no replacement connection can be established, the
+					// reconnect loop is in its back-off when the requests are issued and
+					// when the client is closed
+					srv.mu.Lock()
+					srv.refuse = true
+					srv.mu.Unlock()
+					classes["issued-during-outage-then-close"] = true
+				}
 				srv.killCurrent()
 				hist = append(hist, "kill-idle")
 				classes["kill-before-send"] = true
@@ -437,7 +447,7 @@ func TestC29(t *testing.T) {
 		})
 		key := fmt.Sprintf("seed=%d %s", seed, strings.Join(hist, " "))
 		var cl []string
-		for _, k := range []string{"kill-before-send", "killed-after-send-before-ack", "killed-after-ack", "killed-after-result", "client-closed"} {
+		for _, k := range []string{"kill-before-send", "killed-after-send-before-ack", "killed-after-ack", "killed-after-result", "client-closed", "issued-during-outage-then-close"} {
 			if classes[k] {
 				cl = append(cl, k)
 			}
